@@ -79,7 +79,12 @@ def _is_ws_node(sub):
     return op is sc.IN and len(av) == 1 and av[0][0] is sc.CATEGORY and str(av[0][1]) == 'CATEGORY_SPACE'
 
 
-def expand(tree, rule):
+def _ic_domain(dom):
+    from vlib import casefold
+    return frozenset(chr(c) for c in casefold.matching_chars([ord(ch) for ch in dom]))
+
+
+def expand(tree, rule, ic=False):
     """-> list of (template tuple, n_ws_filled)"""
     def seq(items):
         outs = [((), 0)]
@@ -95,9 +100,14 @@ def expand(tree, rule):
 
     def node(op, av):
         if op is sc.LITERAL:
-            return [((frozenset(chr(av)),), 0)]
+            d = frozenset(chr(av))
+            return [(((_ic_domain(d) if ic else d),), 0)]
         if op is sc.IN:
-            return [((_class_domain(av),), 0)]
+            d = _class_domain(av)
+            if ic:
+                # \d / \s members are case-invariant; letters get their exact sre case variants
+                d = frozenset(c for c in d if not c.isalpha()) | _ic_domain([c for c in d if c.isalpha()])
+            return [((d,), 0)]
         if op is sc.AT:
             return [((), 0)]
         if op is sc.BRANCH:
@@ -142,7 +152,7 @@ def templates_of(pattern, rule):
         pattern = pattern.pattern
     else:
         flags = 0
-    return expand(sp.parse(pattern, flags), rule)
+    return expand(sp.parse(pattern, flags), rule, ic=bool(flags & re.IGNORECASE))
 
 
 def show(t):
